@@ -68,3 +68,10 @@ codec_std = dict(
     bounded=dict(bound='containers of every size 0..4 (thorough: 0..40, beyond the inline capacity of the size cache and its first two heap growths) over fixed element families; 7x7 string pairs', form='b'),
     dropped=[], trusted=['g++ / libstdc++ / fmt execute the real codecs; fmt formats both sides'], min_obligations=1, timeout=1200)
 UNITS += [codec_std]
+rotating_restart = dict(
+    name='RS.restart_files', primary='C14', props={'C14'}, kind='L', funcs=[], enforce=None,
+    desc='the real RotatingFileSink across a restart (mode w, then mode a) for the naming schemes Index / Date / DateAndTime on real files, with unrelated files and the files of a second sink (r.debug.log) in the directory: whole statements in order as the naming scheme orders the files, nothing clobbered by the restart, foreign files untouched (_clean_and_recover_files, _rotate_files, _get_filename: directory scan and string surgery out of CBMC reach)',
+    native=dict(cpp='rotating_restart.cpp', file='include/quill/sinks/RotatingSink.h', function='RotatingSink::{RotatingSink,_clean_and_recover_files,_is_rotated_file_of,write_log,_size_rotation,_rotate_files,_get_filename}', defs_quick=['LEN=3'], defs_thorough=['LEN=4']),
+    bounded=dict(bound='3 naming schemes x 2 backup limits x overwrite on/off x pairs of sequences of 1..3 (thorough: 1..4) statements of 2 sizes; one restart within the same day', form='b'),
+    dropped=[], trusted=['g++ / libstdc++ / the file system execute the real sink'], min_obligations=1, timeout=1200)
+UNITS += [rotating_restart]
